@@ -70,6 +70,46 @@ pub fn number_words(l: L) -> Vec<String> {
     out
 }
 
+/// Word-like string literals found in the CURRENT source tree of the library's language modules that are in
+/// none of the alphabets extracted from the pinned tree: a change that adds vocabulary (a new filler word, an
+/// adverb list, a unit name) brings its own trigger words, and they are only to be found there.
+/// (White-box alphabet construction; the oracles that use it do not depend on what the words mean.)
+pub fn new_source_literals(l: L) -> Vec<String> {
+    let dir = format!("{}/harness/repo/src/lang/{}", crate::infra::verif_root(), match l {
+        L::En => "en",
+        L::Fr => "fr",
+        L::Es => "es",
+        L::Pt => "pt",
+        L::It => "it",
+        L::De => "de",
+        L::Nl => "nl",
+    });
+    let known: std::collections::HashSet<String> = sigma_full(l).into_iter().chain(lits(l).iter().map(|x| x.to_string())).collect();
+    let re = regex::Regex::new(r#""((?:[^"\\]|\\.)*)""#).unwrap();
+    let mut out: Vec<String> = vec![];
+    let mut files: Vec<std::path::PathBuf> = std::fs::read_dir(&dir).map(|rd| rd.flatten().map(|e| e.path()).filter(|p| p.extension().map_or(false, |e| e == "rs")).collect()).unwrap_or_default();
+    files.sort();
+    for f in files {
+        let Ok(text) = std::fs::read_to_string(&f) else { continue };
+        // the unit tests of the module are not vocabulary
+        let code = text.split("#[cfg(test)]").next().unwrap_or("");
+        for line in code.lines() {
+            let t = line.trim_start();
+            if t.starts_with("//") {
+                continue;
+            }
+            for c in re.captures_iter(line) {
+                let w = c[1].to_string();
+                let n = w.chars().count();
+                if n >= 1 && n <= 24 && w.chars().all(|ch| ch.is_alphabetic() || ch == '\'' || ch == '-' || ch == ' ') && w.chars().any(|ch| ch.is_alphabetic()) && !known.contains(&w) && !known.contains(&w.to_lowercase()) && !out.contains(&w) {
+                    out.push(w);
+                }
+            }
+        }
+    }
+    out
+}
+
 /// Words from which very large numbers are built: nine, tens, hundred, one, the scale words of the class
 /// alphabet and one representative per (value, cardinal/ordinal) among the vocabulary's scale words.
 pub fn big_number_words(l: L, lang: &text2num::Language) -> Vec<String> {
